@@ -81,12 +81,46 @@ def check(F, rep):
         return bool(x) and all(y[0] == "arg" and y[1] == 2 and tuple(y[2]) == ("preferred_relay",) for y in x)
 
     # ---- writes of r.preferred_relay
-    repl = [(b, t) for b, t in find_calls(f, "core::option::Option::replace") if is_cur_pref(t["args"][0])]
-    asg = [(b, i, s) for b, i, s in f.stmts() if s["k"] == "a" and s["lhs"]["l"] == 2 and [e[2] for e in s["lhs"].get("p", []) if e[0] == "f"] == ["preferred_relay"]]
-    refmut = [(b, i, s) for b, i, s in f.stmts() if s["k"] == "a" and s["rv"]["k"] == "ref" and s["rv"].get("mut") and s["rv"]["p"]["l"] == 2 and [e[2] for e in s["rv"]["p"].get("p", []) if e[0] == "f"] == ["preferred_relay"]]
-    rep.exact("membership", "preferred_relay.replace(..) calls", len(repl), 1)
-    rep.exact("membership", "assignments to r.preferred_relay", len(asg), 1)
-    rep.ob("membership", len(refmut) == len(repl), site(f), "no other mutable access to r.preferred_relay (%d &mut, %d replace)" % (len(refmut), len(repl)), skey(F, f, "no-other-writers"))
+    # ---- writers of r.preferred_relay: (a) candidate = Some(url.clone()) via replace(..) or
+    # assignment, (b) restore = prev_relay
+    writers = []      # (block, kind, value operand)
+    for b, t in find_calls(f, "core::option::Option::replace"):
+        if is_cur_pref(t["args"][0]):
+            writers.append((b, "replace", t["args"][1]))
+    for b, i, s_ in f.stmts():
+        if s_["k"] == "a" and s_["lhs"]["l"] == 2 and [e[2] for e in s_["lhs"].get("p", []) if e[0] == "f"] == ["preferred_relay"]:
+            if s_["rv"]["k"] == "use":
+                writers.append((b, "assign", s_["rv"]["o"]))
+            elif s_["rv"]["k"] == "agg" and s_["rv"].get("variant") == "Some":
+                writers.append((b, "assign-some", s_["rv"]["ops"][0]))
+            else:
+                writers.append((b, "assign-other", None))
+    refmut = [(b, i, s_) for b, i, s_ in f.stmts() if s_["k"] == "a" and s_["rv"]["k"] == "ref" and s_["rv"].get("mut") and s_["rv"]["p"]["l"] == 2 and [e[2] for e in s_["rv"]["p"].get("p", []) if e[0] == "f"] == ["preferred_relay"]]
+
+    def url_clone(o):
+        """operand is (a clone of) the current entry's url"""
+        l = op_base(o) if o is not None else None
+        if l is None:
+            return False
+        x = copy_sources(f, l, stop=slotset)
+        if x and all(y[0] == "agg" and y[1].endswith("Option::Some") for y in x):
+            for b_, i_, st in f.stmts():
+                if st["k"] == "a" and st["lhs"] == {"l": l} and st["rv"]["k"] == "agg" and st["rv"].get("variant") == "Some":
+                    return url_clone(st["rv"]["ops"][0])
+            # through a copy chain
+            for b_, i_, st in f.stmts():
+                if st["k"] == "a" and st["lhs"] == {"l": l} and st["rv"]["k"] == "use" and st["rv"]["o"]["k"] in ("copy", "move"):
+                    return url_clone(st["rv"]["o"])
+            return False
+        return bool(x) and all(y[0] == "call" and y[1].endswith("Iterator::next") and tuple(y[2]) == ("0", "1") for y in x)
+    cand_w = [(b, k, o) for b, k, o in writers if (k == "replace" and url_clone(o)) or (k in ("assign", "assign-some") and url_clone(o))]
+    rest_w = [(b, k, o) for b, k, o in writers if k == "assign" and is_slot(o, prev)]
+    other_w = [w for w in writers if w not in cand_w and w not in rest_w]
+    rep.exact("membership", "writes of the candidate (Some(url.clone()))", len(cand_w), 1)
+    rep.exact("membership", "writes restoring the previous preferred relay", len(rest_w), 1)
+    rep.ob("membership", not other_w and len(refmut) == sum(1 for w in writers if w[1] == "replace"), site(f), "r.preferred_relay has no other writer (%s; %d &mut borrows)" % ([w[1] for w in other_w], len(refmut)), skey(F, f, "no-other-writers"))
+    repl = [(b, {"args": [None, o]}) for b, k, o in cand_w]
+    asg = [(b, None, {"rv": {"k": "use", "o": o}}) for b, k, o in rest_w]
     gets = [(b, t) for b, t in find_calls(f, RL + "::get") if arg_ref_target(f, t["args"][0]) == best_recent or is_slot(t["args"][0], best_recent)]
     gets = [(b, t) for b, t in find_calls(f, RL + "::get")]
     rep.exact("window", "best_recent.get(url) calls", len(gets), 1)
@@ -95,7 +129,7 @@ def check(F, rep):
         gb, gt = gets[0]
         gts, _ = call_result_tests(f, gb)
         val = src(rt["args"][1])
-        okv = bool(val) and all(y[0] == "call" and y[1].endswith("Iterator::next") and tuple(y[2]) == ("0", "1") for y in val)
+        okv = url_clone(rt["args"][1])
         rep.ob("membership", okv and requires(f, rb, nts) and requires(f, rb, gts), site(f, rb), "the candidate stored is the url of the current entry, and only if best_recent has a latency for it; sources %s" % sorted(map(str, val)), skey(F, f, "candidate-from-current"))
         rep.ob("window", arg_ref_target(f, gt["args"][0]) == best_recent and is_item(gt["args"][1], "1"), site(f, gb), "the latency compared is best_recent.get(url) of that entry", skey(F, f, "get-operands"))
     if asg:
@@ -112,12 +146,48 @@ def check(F, rep):
     others = [s for b, i, s in f.stmts() if s["k"] == "a" and s["lhs"] == {"l": prev} and not (s["rv"]["k"] == "agg" and s["rv"].get("variant") == "None")]
     rep.ob("membership", okp and len(pw) == 1 and not others, site(f), "prev_relay is None or the last report's preferred_relay", skey(F, f, "prev-from-last"))
 
+    # ---- the report that is recorded (reports.last / reports.prev) is the final one
+    recs = [(b, t) for b, t in f.calls() if call_matches(t, r"^core::clone::Clone::clone$") and copy_sources(f, op_base(t["args"][0])) == {("arg", 2, ())}]
+    rep.floor("history", "clones of the report into the history", len(recs), 1)
+    wblocks = {w[0] for w in writers}
+    for b, t in recs:
+        late = sorted(wb for wb in wblocks if wb in f.reachable(b))
+        rep.ob("history", not late, site(f, b), "the report is copied into reports.last / reports.prev only after its preferred_relay is final (no write of r.preferred_relay is reachable afterwards) - the next call reads prev_relay from reports.last, so a stale copy would defeat the stickiness", skey(F, f, "recorded-report-final"))
+    lastw = [(b, i, s_) for b, i, s_ in f.stmts() if s_["k"] == "a" and s_["lhs"]["l"] == 1 and [e[2] for e in s_["lhs"].get("p", []) if e[0] == "f"][-1:] == ["last"]]
+    rep.floor("history", "writes of self.reports.last", len(lastw), 1)
     # ---- window: merges
     merges = find_calls(f, RL + "::merge")
     rep.exact("window", "best_recent.merge calls", len(merges), 2)
     ages = [(b, s, ts) for b, s, ts in cmp_tests(f, ops=("Gt", "Ge", "Lt", "Le")) if any(o["k"] == "const" and str(o.get("def", "")).endswith("::MAX_AGE") for o in (s["rv"]["a"], s["rv"]["b"]))]
     age_calls = [(b, t) for b, t in find_calls(f, regex=r"^core::cmp::PartialOrd::(gt|ge|lt|le)$") if any(a["k"] == "const" and str(a.get("def", "")).endswith("::MAX_AGE") for a in t["args"]) or any(str(x[4].get("def", "")).endswith("::MAX_AGE") for a in t["args"] if op_base(a) is not None for x in du.origin_facts(op_base(a), kinds=("const",)) if def_call(f, op_base(a)) is None)]
-    rep.exact("window", "age comparisons against MAX_AGE", len(age_calls), 1)
+    retain_ok = None
+    if not age_calls:
+        # idiom 2: `self.reports.prev.retain(|t, _| now.duration_since(*t) <= MAX_AGE)` and then
+        # every remaining report is merged
+        for b, t in find_calls(f, regex=r"BTreeMap::retain$"):
+            x = copy_sources(f, op_base(t["args"][0]))
+            if not (x and all(y[0] == "arg" and y[1] == 1 and tuple(y[2])[-2:] == ("reports", "prev") for y in x)):
+                continue
+            m_ = re.search(r"closure@[^:]+:(\d+):", str(f.locals[op_base(t["args"][1])]))
+            for c in F.tree(f):
+                if c is f or not m_ or c.line != int(m_.group(1)) or c.kind != "Closure":
+                    continue
+                cc = [(cb, ct) for cb, ct in c.calls() if call_matches(ct, r"^core::cmp::PartialOrd::(le|lt|gt|ge)$")]
+                ds = [(cb, ct) for cb, ct in c.calls() if call_matches(ct, r"Instant::duration_since$")]
+                consts = {o.get("def") for cb, i_, st in c.stmts() if st["k"] == "a" and st["rv"]["k"] == "use" and st["rv"]["o"]["k"] == "const" for o in [st["rv"]["o"]]}
+                nots = [st for cb, i_, st in c.stmts() if st["k"] == "a" and st["lhs"]["l"] == 0 and st["rv"]["k"] == "un"]
+                if len(cc) == 1 and len(ds) == 1 and any(str(x_).endswith("::MAX_AGE") for x_ in consts):
+                    rep.fn(c)
+                    nm = callee_names(cc[0][1])[0].rsplit("::", 1)[-1]
+                    age_first = def_call(c, ref_target_local(c, cc[0][1]["args"][0])) is not None and call_matches(def_call(c, ref_target_local(c, cc[0][1]["args"][0]))[1], r"duration_since$")
+                    keep_young = ((age_first and nm in ("le", "lt")) or (not age_first and nm in ("ge", "gt"))) != bool(nots)
+                    retain_ok = (b, keep_young and cc[0][1]["dest"]["l"] == 0 or (keep_young and bool(nots)))
+        rep.ob("window", retain_ok is not None and retain_ok[1], site(f, retain_ok[0] if retain_ok else None), "reports older than MAX_AGE are dropped by retain(|t, _| now.duration_since(*t) <= MAX_AGE) before the remaining ones are merged", skey(F, f, "merge-within-window"))
+        if retain_ok is not None:
+            prev_merges = [(b_, t_) for b_, t_ in merges if not all(y[0] == "arg" and y[1] == 2 and tuple(y[2]) == ("relay_latency",) for y in copy_sources(f, op_base(t_["args"][1])) or [("x", 0, ())])]
+            rep.ob("window", len(prev_merges) == 1 and f.dominates(retain_ok[0], prev_merges[0][0]), site(f, retain_ok[0]), "the merge loop over the previous reports runs after the pruning", skey(F, f, "merge-after-retain"))
+    else:
+        rep.exact("window", "age comparisons against MAX_AGE", len(age_calls), 1)
     ma = [g for g in F.find(r"add_report_history_and_set_preferred_relay::MAX_AGE$")]
     okm = False
     if len(ma) == 1:
